@@ -77,6 +77,7 @@ class Emitter:
         self.callees = {}  # cname -> description
         self.unit_names = set()
         self.news = {}
+        self.makes = {}  # by-value constructions of plain classes: cname -> (tag, ctor cname, param ctypes)
         self.const_needed = set()
         self.const_inits = {}  # C name -> int value of a const integral global (emitted as enum constant)
         self._const_cache = {}
@@ -418,6 +419,15 @@ class Emitter:
         bt = self.ptype(base)
         if qt(n) == "<bound member function type>":
             raise Unsupported("bound member function outside call")
+        # `set.insert(v).second` / `set.emplace(v).second` on a modelled set: "was it new" -> vf_set_<T>_insert_new
+        core = skip(base)
+        if name == "second" and not n.get("isArrow") and core.get("kind") == "CXXMemberCallExpr" and core.get("inner"):
+            me = skip(core["inner"][0])
+            if me.get("kind") == "MemberExpr" and me.get("name") in ("insert", "emplace") and len(core["inner"]) == 2:
+                sct = self.try_ctype(me["inner"][0])
+                if sct and sct.startswith("struct vf_set_"):
+                    obj = self.E(me["inner"][0]) if me.get("isArrow") else self.addr_of(me["inner"][0])
+                    return "%s_insert_new(%s, %s)" % (sct[len("struct "):].rstrip("*"), obj, self.E(core["inner"][1]))
         # static data member accessed through object
         tag = self.tm.class_tag_of(bt)
         b = self.E(base)
@@ -974,7 +984,23 @@ class Emitter:
         r = self.class_construct(n, None)
         if r is not None:
             return r
-        raise Unsupported("constructor of %s (%s)" % (qt(n), n.get("ctorType", {}).get("qualType")))
+        # by-value construction of a plain (non-model) class: `T(args)` -> `T__make(args)`, a function returning the
+        # struct; its body (`struct T r; T__ctor(&r, args); return r;`) is generated when the constructor is a unit,
+        # otherwise it is a callee that needs an assumed contract in the spec
+        ct = self.try_ctype(n)
+        fnt = n.get("ctorType", {}).get("qualType")
+        if ct and fnt and ct.startswith("struct ") and not ct.endswith("*") and not ct.startswith("struct vf_"):
+            tag = ct[len("struct "):]
+            args = self.call_args(n.get("inner", []), self.fn_params_from(fnt))
+            cn = self.fn_cname(tag, "make", fnt)
+            params = self.param_ctypes_from(fnt)
+            self.note_proto(cn, ct, params, "by-value construction of " + tag + " " + fnt)
+            self.callees[cn] = "by-value %s%s" % (tag, fnt)
+            self.callflag = True
+            self.structs.setdefault(tag, {})
+            self.makes[cn] = (tag, self.fn_cname(tag, "ctor", fnt), params)
+            return "%s(%s)" % (cn, ", ".join(args))
+        raise Unsupported("constructor of %s (%s)" % (qt(n), fnt))
 
     def class_construct(self, n, target):
         """object of a (SimGrid) class built by one of its constructors: a temporary (or `target`, the name of a declared
